@@ -820,3 +820,132 @@ func zeroValOf(k Kind) *Val {
 	}
 	return vInt(0)
 }
+
+// sweep32: exhaustive 2^32 sweep of every 32-bit kind through the real writers and readers
+// against a Go transcription of closed_form (Props/C15.v). One row per kind.
+func closedForm32(k Kind, v uint32) []byte {
+	switch k {
+	case KBool:
+		return []byte{byte(v & 1)}
+	case KInt32:
+		return protowire.AppendVarint(nil, uint64(int64(int32(v))))
+	case KSint32:
+		x := int64(int32(v))
+		var z uint64
+		if x < 0 {
+			z = uint64(-2*x - 1)
+		} else {
+			z = uint64(2 * x)
+		}
+		return protowire.AppendVarint(nil, z)
+	case KUint32:
+		return protowire.AppendVarint(nil, uint64(v))
+	default: // fixed32, sfixed32, float: 4 little-endian bytes of the bit pattern
+		return []byte{byte(v), byte(v >> 8), byte(v >> 16), byte(v >> 24)}
+	}
+}
+
+func init() {
+	register("sweep32", func(args []string, out *bufio.Writer) error {
+		kinds := []Kind{KInt32, KSint32, KSfixed32, KUint32, KFixed32, KFloat, KBool}
+		const workers = 16
+		for _, k := range kinds {
+			type res struct {
+				bad   uint64
+				first string
+			}
+			ch := make(chan res, workers)
+			total := uint64(1) << 32
+			if k == KBool {
+				total = 2
+			}
+			for w := 0; w < workers; w++ {
+				go func(w int) {
+					var r res
+					enc := picobuf.NewEncoderBuffer(make([]byte, 0, 64))
+					tag := protowire.AppendTag(nil, 7, wireOfKind(k))
+					for x := uint64(w); x < total; x += workers {
+						v := uint32(x)
+						enc = picobuf.NewEncoderBuffer(enc.Buffer())
+						var back uint32
+						switch k {
+						case KInt32:
+							y := int32(v)
+							enc.AlwaysInt32(7, &y)
+						case KSint32:
+							y := int32(v)
+							enc.AlwaysSint32(7, &y)
+						case KSfixed32:
+							y := int32(v)
+							enc.AlwaysSfixed32(7, &y)
+						case KUint32:
+							enc.AlwaysUint32(7, &v)
+						case KFixed32:
+							enc.AlwaysFixed32(7, &v)
+						case KFloat:
+							y := math.Float32frombits(v)
+							enc.AlwaysFloat(7, &y)
+						case KBool:
+							y := v != 0
+							enc.AlwaysBool(7, &y)
+						}
+						got := enc.Buffer()
+						want := closedForm32(k, v)
+						ok := len(got) == len(tag)+len(want) && string(got[:len(tag)]) == string(tag) && string(got[len(tag):]) == string(want)
+						if ok {
+							dec := picobuf.NewDecoder(got)
+							dec.VerifInit()
+							switch k {
+							case KInt32:
+								var y int32
+								dec.Int32(7, &y)
+								back = uint32(y)
+							case KSint32:
+								var y int32
+								dec.Sint32(7, &y)
+								back = uint32(y)
+							case KSfixed32:
+								var y int32
+								dec.Sfixed32(7, &y)
+								back = uint32(y)
+							case KUint32:
+								dec.Uint32(7, &back)
+							case KFixed32:
+								dec.Fixed32(7, &back)
+							case KFloat:
+								var y float32
+								dec.Float(7, &y)
+								back = math.Float32bits(y)
+							case KBool:
+								var y bool
+								dec.Bool(7, &y)
+								if y {
+									back = 1
+								}
+							}
+							ok = back == v && dec.Err() == nil
+						}
+						if !ok {
+							r.bad++
+							if r.first == "" {
+								r.first = fmt.Sprintf("value=%d bytes=%x want=%x back=%d", v, got, append(append([]byte{}, tag...), want...), back)
+							}
+						}
+					}
+					ch <- r
+				}(w)
+			}
+			var bad uint64
+			first := ""
+			for w := 0; w < workers; w++ {
+				r := <-ch
+				bad += r.bad
+				if first == "" {
+					first = r.first
+				}
+			}
+			fmt.Fprintf(out, "sweep32\t%s\t%d\t%d\t%s\n", k, total, bad, first)
+		}
+		return nil
+	})
+}
